@@ -37,6 +37,7 @@ func init() {
 			{ID: "C03-R5", Title: "template fragments and expressions are paired", Floor: 1, Run: c03r5},
 			{ID: "C03-R6", Title: "error renderers index and slice only under a length test", Floor: 5, Run: formatterBounds},
 			{ID: "C03-R7", Title: "a channel field is closed at most once", Floor: 5, Run: func(c *core.Ctx) { closeOnce(c, "") }},
+			{ID: "C03-R8", Title: "parse results tested for nil at one site are not stored untested at another", Floor: 1, Run: nilBeliefAcrossCallSites},
 		},
 	})
 }
